@@ -1,0 +1,129 @@
+// Verification hooks. This file only exists under the "verif" build tag; it
+// adds exported accessors around unexported internals and changes nothing.
+
+//go:build verif
+
+package region
+
+import (
+	"bytes"
+	"fmt"
+	"io"
+	"log/slog"
+	"net"
+	"runtime/debug"
+	"time"
+
+	"github.com/tsuna/gohbase/compression"
+	"github.com/tsuna/gohbase/hrpc"
+)
+
+// VerifCompressCellblocks is compressor.compressCellblocks. The returned
+// slice is a copy (the original goes back to the buffer pool).
+func VerifCompressCellblocks(codec compression.Codec, cbs [][]byte, total uint32) []byte {
+	c := &compressor{Codec: codec}
+	out := c.compressCellblocks(net.Buffers(cbs), total)
+	cp := append([]byte(nil), out...)
+	freeBuffer(out)
+	return cp
+}
+
+// VerifDecompressCellblocks is compressor.decompressCellblocks.
+func VerifDecompressCellblocks(codec compression.Codec, b []byte) ([]byte, error) {
+	c := &compressor{Codec: codec}
+	return c.decompressCellblocks(b)
+}
+
+type verifNopConn struct{}
+
+func (verifNopConn) Read(b []byte) (int, error)         { return 0, io.EOF }
+func (verifNopConn) Write(b []byte) (int, error)        { return len(b), nil }
+func (verifNopConn) Close() error                       { return nil }
+func (verifNopConn) LocalAddr() net.Addr                { return nil }
+func (verifNopConn) RemoteAddr() net.Addr               { return nil }
+func (verifNopConn) SetDeadline(t time.Time) error      { return nil }
+func (verifNopConn) SetReadDeadline(t time.Time) error  { return nil }
+func (verifNopConn) SetWriteDeadline(t time.Time) error { return nil }
+
+type verifDiscard struct{}
+
+func (verifDiscard) Write(p []byte) (int, error) { return len(p), nil }
+
+// VerifReceiveResult is what one run of the connection reader's receive
+// step did.
+type VerifReceiveResult struct {
+	Err   error
+	Panic interface{}
+	Stack string
+	// Leftover is the number of calls still registered as sent afterwards.
+	Leftover int
+}
+
+// VerifReceive registers calls as outstanding on a bare region client - a
+// single call under callID, or, when asMulti is set, one multi-request built
+// from calls exactly as the batching goroutine and send() would build it -
+// and then runs the reader's receive step once on stream. Every call must
+// already have its region set. Results are delivered on the calls' result
+// channels as usual.
+func VerifReceive(calls []hrpc.Call, asMulti bool, codec compression.Codec, callID uint32,
+	stream []byte) (res VerifReceiveResult) {
+	c := &client{
+		conn:         verifNopConn{},
+		rpcs:         make(chan []hrpc.Call),
+		done:         make(chan struct{}),
+		sent:         make(map[uint32]hrpc.Call),
+		rpcQueueSize: len(calls) + 1,
+		readTimeout:  time.Second,
+		logger: slog.New(slog.NewTextHandler(verifDiscard{},
+			&slog.HandlerOptions{Level: slog.LevelError + 4})),
+		inFlight: 1,
+	}
+	if codec != nil {
+		c.compressor = &compressor{Codec: codec}
+	}
+	var rpc hrpc.Call
+	if asMulti {
+		m := newMulti(len(calls) + 1)
+		m.add(calls)
+		m.SerializeCellBlocks(nil)
+		rpc = m
+	} else {
+		rpc = calls[0]
+	}
+	c.sentM.Lock()
+	c.sent[callID] = rpc
+	c.sentM.Unlock()
+
+	defer func() {
+		if r := recover(); r != nil {
+			res.Panic = r
+			res.Stack = string(debug.Stack())
+		}
+		c.sentM.Lock()
+		res.Leftover = len(c.sent)
+		c.sentM.Unlock()
+	}()
+	res.Err = c.receive(bytes.NewReader(stream))
+	return res
+}
+
+// VerifExceptionToError is exceptionToError.
+func VerifExceptionToError(class, stack string) error {
+	return exceptionToError(class, stack)
+}
+
+// VerifDescribe names the concrete error class of err the way the client's
+// retry logic distinguishes them.
+func VerifDescribe(err error) string {
+	switch err.(type) {
+	case nil:
+		return "nil"
+	case RetryableError:
+		return "RetryableError"
+	case ServerError:
+		return "ServerError"
+	case NotServingRegionError:
+		return "NotServingRegionError"
+	}
+	return fmt.Sprintf("%T", err)
+}
